@@ -796,11 +796,23 @@ def check_C08(ctx):
             for c in r.sample(wforms, ctx.scale(2, 8)):
                 weird.append(dict(c, **{key: pth}))
         weird.append(dict(files=wf, cmd="lint", arg=pth.encode(), **NOCOLOR))
+    # argument vectors as a user may mistype them: unknown and repeated flags, flags without their value, values that look like flags, flags after the
+    # arguments, "--flag=value" forms, empty strings, sub-commands that do not exist (urfave/cli decodes them; only crash / hang is checked)
+    FLAGS = ["-d", "--database", "-l", "--logfile", "-c", "--config", "--date-format", "--maxdepth", "--today", "-b", "--begin", "-e", "--end", "--no-color", "--no-database",
+             "-f", "--single-food", "-s", "--single-element", "-g", "--group-food", "--csv", "--no-totals", "--totals-only", "--shorten", "--use-old-reg-reporter",
+             "--internal-template-name", "--collapse", "--collapse-last", "-c", "--desc", "--silent", "--help", "-h", "--version", "-v", "--", "-", "--nonsense", "-x", "-bx", "--begin=2021/01/01", "--maxdepth=abc"]
+    WORDS = ["register", "reg", "balance", "bal", "lint", "report", "totals", "quantity", "unresolved", "element-total", "csv", "log", "database", "database-resolved", "stats", "summary",
+             "today", "yesterday", "print", "gen", "man", "markdown", "help", "food.yaml", "log.yaml", "kcal", "", " ", "2021/01/21", "10", "-1", "0", "nothing"]
+    for k in range(ctx.scale(400, 8000)):
+        n = r.randint(0, 7)
+        av = [r.choice(FLAGS) if r.random() < 0.45 else r.choice(WORDS) for _ in range(n)]
+        if r.random() < 0.7: av.insert(r.randint(0, len(av)), r.choice(["register", "balance", "report", "csv", "lint", "stats", "summary", "print"]))
+        weird.append(dict(files=wf, cmd="argv", raw_argv=av, raw_env={"HR_MAXDEPTH": r.choice(["", "x", "3", "-1"])} if r.random() < 0.1 else None))
     wres = impl_only(ctx, weird) + impl_only(ctx, [dict(c, sink=None) for c in weird[::3]], inproc=True)
     for c, i in zip(weird + weird[::3], wres):
         ctx.tally("robustness_only_status", i["status"].split(":")[0])
         if i["status"].startswith("crash") or i["status"] == "timeout":
-            ctx.violation("C08:crash:" + c["cmd"], "%s with an unusual file name (%s): %s %s" % (c["cmd"], {k2: c[k2] for k2 in ("f_config", "e_config", "f_db", "e_db", "f_log", "e_log", "arg") if c.get(k2) is not None}, i["status"], (i.get("panic") or i.get("raw_err") or "")[:300]), dict(kind="cli", case=c, impl=i, robustness_only=True))
+            ctx.violation("C08:crash:" + c["cmd"], "%s with an unusual file name (%s): %s %s" % (c["cmd"], {k2: c[k2] for k2 in ("f_config", "e_config", "f_db", "e_db", "f_log", "e_log", "arg", "raw_argv") if c.get(k2) is not None}, i["status"], (i.get("panic") or i.get("raw_err") or "")[:300]), dict(kind="cli", case=c, impl=i, robustness_only=True))
     # in-process (panics are recovered and reported with their stack) ...
     ires = cli_diff(ctx, [dict(c, sink=None) for c in cases], tag="C08:", inproc=True, keyf=lambda c: "C08:outcome:" + c["cmd"])
     # ... and the real binary (exit status / signal / timeout)
@@ -815,7 +827,8 @@ def check_C08(ctx):
     return dict(rule="valid worlds with 1-4 mutations (deletions, arbitrary bytes, truncation, structure characters, invalid UTF-8, NUL, bad and special numbers, duplicated fragments), pure "
                 "random bytes, cyclic books; x command forms (24 forms, %s per world), odd invocations (missing arguments, bad regexp, odd layouts and period strings, --maxdepth 0 / "
                 "negative / 10^7 on a cyclic book), arguments that name an element or food only approximately (other letter case, prefix, blank), and - outside the model, crash / hang only - "
-                "file names whose stat or open fails unusually (path through a file, over-long name, symlink loop, empty name, directory); run in-process (a panic is recovered and reported) and on the real binary (exit status, signal, 20 s timeout); the outcome class and, "
+                "file names whose stat or open fails unusually (path through a file, over-long name, symlink loop, empty name, directory) and mistyped argument vectors (unknown / repeated / "
+                "valueless flags, flags after arguments, unknown sub-commands); run in-process (a panic is recovered and reported) and on the real binary (exit status, signal, 20 s timeout); the outcome class and, "
                 "where the model is exact, the bytes are compared with the extracted Coq model. Non-trivial = every mutated world, distinct by file bytes" % ("all" if ctx.tier == "thorough" else "6 sampled"))
 
 # ---------------------------------------------------------------------------
